@@ -1201,7 +1201,28 @@ func (e *verifE1) checkRetransmission(i int, got []lnwire.Message) {
 	needRev := rev != nil && !rev.Processed
 	var sigPart []lnwire.Message
 	if needSig {
-		sigPart = append(sigPart, sig.Covered...)
+		// lnd keeps at most one not-yet-committed update_fee in its log:
+		// a newer one replaces the rate of the pending entry (same
+		// position, same log index). The retransmitted update stream
+		// therefore carries one update_fee at the first one's position
+		// with the last one's rate; the peer forgot every unsigned
+		// update, so this is exactly what it is missing.
+		first := -1
+		var cov []lnwire.Message
+		for _, m := range sig.Covered {
+			if f, ok := m.(*lnwire.UpdateFee); ok {
+				if first < 0 {
+					first = len(cov)
+					cp := *f
+					cov = append(cov, &cp)
+				} else {
+					cov[first].(*lnwire.UpdateFee).FeePerKw = f.FeePerKw
+				}
+				continue
+			}
+			cov = append(cov, m)
+		}
+		sigPart = append(sigPart, cov...)
 		sigPart = append(sigPart, sig.Sig)
 	}
 	switch {
